@@ -211,7 +211,12 @@ where
     /// Read one or more blocks, starting at the given block index.
     fn read(&mut self, blocks: &mut [Block], start_block_idx: BlockIdx) -> Result<(), Error> {
         let start_idx = match self.card_type {
-            Some(CardType::SD1 | CardType::SD2) => start_block_idx.0 * 512,
+            // Standard capacity cards take a byte address, which cannot name
+            // blocks beyond 4 GiB
+            Some(CardType::SD1 | CardType::SD2) => start_block_idx
+                .0
+                .checked_mul(512)
+                .ok_or(Error::ReadError)?,
             Some(CardType::SDHC) => start_block_idx.0,
             None => return Err(Error::CardNotFound),
         };
@@ -235,7 +240,12 @@ where
     /// Write one or more blocks, starting at the given block index.
     fn write(&mut self, blocks: &[Block], start_block_idx: BlockIdx) -> Result<(), Error> {
         let start_idx = match self.card_type {
-            Some(CardType::SD1 | CardType::SD2) => start_block_idx.0 * 512,
+            // Standard capacity cards take a byte address, which cannot name
+            // blocks beyond 4 GiB
+            Some(CardType::SD1 | CardType::SD2) => start_block_idx
+                .0
+                .checked_mul(512)
+                .ok_or(Error::WriteError)?,
             Some(CardType::SDHC) => start_block_idx.0,
             None => return Err(Error::CardNotFound),
         };
